@@ -250,7 +250,9 @@ def histogram_dcrecv(cases, outs):
         i = v.index(-1)
         for d, code in zip(v[1:i:2], v[2:i:2]):
             if d == 1:
-                h["dup_refused_Duplicate" if code == 1 else ("dup_refused_other" if code == 2 else "accepted")] += 1
+                h["dup_refused_Duplicate" if code == 1 else ("dup_refused_other" if code == 2 else "dup_skipped_ok")] = h.get("dup_refused_Duplicate" if code == 1 else ("dup_refused_other" if code == 2 else "dup_skipped_ok"), 0) + 1
+            elif d == 2:
+                h["after_all_received"] = h.get("after_all_received", 0) + 1
             elif code == 0:
                 h["accepted"] += 1
             else:
@@ -261,6 +263,6 @@ def histogram_dcrecv(cases, outs):
 
 
 registry.PROPS["C20"]["components"].append(
-    {"name": "dcrecv", "gen": gen_dcrecv, "fixed": fixed_dcrecv, "quick": 3000, "thorough": 200000, "model": False,
+    {"name": "dcrecv", "gen": gen_dcrecv, "fixed": fixed_dcrecv, "quick": 1500, "thorough": 200000, "model": False,
      "valid": lambda c: len(c) >= 2 and (len(c) - 2) % 3 == 0 and all(0 <= v < (1 << 40) for v in c),
      "nontrivial": nontrivial_dcrecv, "histogram": histogram_dcrecv})
